@@ -23,6 +23,8 @@ import RV.Gen.C10Janus
 -/
 set_option linter.unusedVariables false
 set_option linter.unnecessarySeqFocus false
+set_option linter.unusedTactic false
+set_option linter.unreachableTactic false
 namespace RV.C10
 open RV RV.Janus RV.Reversal JFloat
 
@@ -51,6 +53,17 @@ theorem c10_janus_doubles_reverse {F : Type} [JFloat F] (L : JLaws F) (cfg : Cfg
     (steps cfg s (neg dt) n st').map (toDouble cfg.scalePos cfg.scaleVel) =
       some (toDouble cfg.scalePos cfg.scaleVel st) := by
   rw [steps_reverse L cfg s hp dt n st st' h]; rfl
+
+/-- the step as seen from outside (`reb_simulation_step`: flag, `N_allocated`, particle doubles): from a
+    state with the flag clear and `N_allocated = N`, n undisturbed steps with `dt` and n with `-dt`
+    return the grid state, and the flag is still clear — no step ever re-derives the grid from the
+    doubles -/
+theorem c10_janus_full_steps_reverse {F : Type} [JFloat F] (L : JLaws F) (cfg : Cfg F) (s : Scheme F)
+    (hp : Palin s) (dt : F) (n : Nat) (js js' : JState) (hr : js.recalc = false)
+    (hn : js.nAllocated = js.pInt.length) (h : stepsFull cfg s dt n js = some js') :
+    stepsFull cfg s (neg dt) n js' = some js ∧ js'.recalc = false ∧
+      js'.nAllocated = js'.pInt.length :=
+  stepsFull_reverse L cfg s hp dt n js js' hr hn h
 
 /-- one step: the elementary-map list of `-dt` is the inverted list of `dt` in reverse order -/
 theorem c10_janus_ops_reverse {F : Type} [JFloat F] (L : JLaws F) (s : Scheme F) (hp : Palin s)
@@ -129,6 +142,15 @@ theorem c10_tables_complete :
     (∀ c ∈ RV.Gen.C10.orderSwitch1.1, ∃ t ∈ RV.Gen.C10.tables, t.name = c.2 ∧ t.order = c.1) := by
   decide +kernel
 
+/-- the recalculation flag is assigned a value other than 0 in exactly one place of the whole source
+    tree, inside integrator_janus.c (the `N_allocated != N` branch of part1): no other code path
+    (callbacks, synchronize, collision handling, Python layer) makes JANUS re-derive its grid state -/
+theorem c10_flag_setters :
+    (∀ a ∈ RV.Gen.C10.flagAssignments, a.2 ≠ "0" → a.1 = "integrator_janus.c") ∧
+    (RV.Gen.C10.flagAssignments.filter (fun a => a.2 != "0")).length = 1 ∧
+    RV.Gen.C10.flagAssignments.length = RV.Gen.C10.nFlagAssignments := by
+  decide +kernel
+
 /-! ### the hypotheses are satisfiable: fixed-point numbers as "doubles", rounding toward zero -/
 
 example : @JLaws Int intJFloat := intLaws
@@ -180,9 +202,16 @@ theorem c10_palindromic_splitting_reverse {S C : Type} (A B : C → S → S) (ng
   have := splitRun_inv_reverse A B ng hA hB l s
   rwa [← List.map_reverse, hpal] at this
 
-/-- the hypotheses are satisfiable: leapfrog's own drift and kick on ℚ-like fields are such flows;
-    here the smallest instance, translations of a field -/
+/-- the hypotheses are satisfiable: translations of a field are flows undone by the negated
+    coefficient (leapfrog's drift and kick are of this kind) -/
 example (c s : K) : (fun (a : K) (x : K) => x + a) (-c) ((fun (a : K) (x : K) => x + a) c s) = s := by
   ring
+
+/-- odd functions exist (the identity), so the SEI theorem is not vacuous; over ℚ with OMEGA = 1 -/
+example (acc : List (V3 ℚ) → List (V3 ℚ)) (dt : ℚ) (s s' : List (LfP ℚ))
+    (h : seiStep acc dt (seiInit id id 1 1 dt) s = some s') :
+    seiStep acc (-dt) (seiInit id id 1 1 (-dt)) s' = some s :=
+  c10_sei_step_reverse id id (fun _ => rfl) (fun _ => rfl) acc 1 1 dt (by norm_num) (by norm_num)
+    (by norm_num) s s' h
 
 end RV.C10
